@@ -4461,6 +4461,9 @@ class Client:
                         raise
 
         msg = self._out_messages.pop(mid)
+        # The message may have been accepted while disconnected (MQTT_ERR_NO_CONN)
+        # or its first write may have failed: it has been delivered now.
+        msg.info.rc = MQTTErrorCode.MQTT_ERR_SUCCESS
         msg.info._set_as_published()
         if msg.qos > 0:
             self._inflight_messages -= 1
